@@ -12,7 +12,7 @@ def main(tier: str, seed: int) -> int:
             "multiset equality on voc(P) with costs. non-trivial = sum_chains changed the program and the outcome varies")
     bounds = {"defs": len(fam.DEFS), "extras": len(fam.EXTRAS), "uses": len(fam.USES),
               "universe": fam.universe("ub1", "none", tier)}
-    return generic.family_main(PROP, tier, seed, fam.jobs(tier), rule, bounds)
+    return generic.family_main(PROP, tier, seed, generic.with_variants(fam.jobs(tier), tier), rule, dict(bounds, variants=True))
 
 
 def replay(path: str) -> int:
